@@ -22,7 +22,9 @@ WHITESPACE_REFS = {'\t': {'&#9;', '&#x9;', '&#x09;'},
 SIMULTANEOUS = set()
 SAMPLE_TEXTS = ['', 'plain', '&', '<', '>', '"', "'", 'a&b', 'a<b>c', 'AT&amp;T', '&lt;tag&gt;',
                 '&#176;', '&#x26;', '&amp;amp;', "it's \"q\" & <more>", '&&', '&quot;', '&apos;x',
-                '&unknown;', '& ', 'a\tb', 'line 1\nline 2', 'cr\rlf\r\n', '\t&\n<\r']
+                '&unknown;', '& ', 'a\tb', 'line 1\nline 2', 'cr\rlf\r\n', '\t&\n<\r',
+                # XML-legal characters at the edges of the Char production, and beyond the BMP
+                'caf\u00e9 \u0085 \ud7ff \ue000 \ufffd', 'smile \U0001F600 & plane-16 \U0010FFFF']
 
 
 def oracle_escape(t):
